@@ -16,7 +16,13 @@ PROPS["C20"] = dict(
          "shorter, same length, empty, arbitrary - and with unrelated files; in a third of the cases 1..3 further rounds within the same process into the SAME destination path "
          "string: before each, 0..3 removals under the destination (the whole directory, all its contents, one drawn sub-folder, one drawn file), then source files "
          "shrunk/grown/emptied/rewritten/deleted or a new file added next to an existing one under a related name - or no edit at all (the same archive again) - then "
-         "ZipFolder+UnzipToFolder again, compared with the model after every round). Excluded as outside the documented domain: relative or unclean source paths, "
+         "ZipFolder+UnzipToFolder again, compared with the model after every round). FAILED CALLS in the history: one case in six starts with, and one further round in three is "
+         "preceded by, 1..2 calls that cannot succeed completely - ZipFolder of the source as it then is into {BASE}/missing/out.zip (no such directory), into a path that is a directory, or into "
+         "a symlink to /dev/full (create and open succeed, every write fails; skipped and counted when the sandbox has no /dev/full; never /dev/full itself: every path handed to the library lies in the "
+         "case's scratch directory, ZipFolder removes its destination on failure), or UnzipToFolder of a fresh archive of the source cut at / with 8 bytes inverted at a drawn position, into a private "
+         "destination. Their outcome is not judged (nil accepted, only a panic is reported); the ordinary rounds after them are compared with the model as always - a round trip owes nothing to calls that failed before it. "
+         "HUGE FILES (unit huge, thorough tier only): a tree {a, m-big, z} whose m-big is a sparse file of 2^32-1, 2^32 or 2^32+4097 bytes (one per shard) with single non-zero bytes at 0, 2^31-1, 2^31, 2^32-2 .. 2^32+1, size/3, size-1, "
+         "round-tripped and compared by size and content; needs the file's size in real scratch space for the extracted copy: the free space is looked at first and the case is skipped with an inconclusive note below size*9/8 + 4 GiB. Excluded as outside the documented domain: relative or unclean source paths, "
          "double slashes, symlinks, devices, unreadable files, the archive placed inside the source dir. "
          "archive case = list of zip entries (name, kind file/dir/symlink mode bits, payload, stored or deflated) written with archive/zip, "
          "optionally with 1..3 corrupted bytes; names from '..', '.', empty and plain segments joined by '/' or '\\\\', up to 8 leading '../', "
@@ -47,6 +53,7 @@ PROPS["C20"] = dict(
         dict(name="tree", run="^TestC20TreeRapid$", checks=(400, 1500), shards=(4, 16), timeout=(200, 1200), shrinktime=("15s", "40s")),
         dict(name="archive", run="^TestC20ArchiveRapid$", checks=(1500, 8000), shards=(4, 16), timeout=(200, 1200), shrinktime=("15s", "40s")),
         dict(name="hostile", run="^TestC20ArchiveExhaustive$", shards=(8, 16), timeout=(200, 1200)),
+        dict(name="huge", run="^TestC20Huge$", shards=(1, 3), timeout=(600, 1200), enabled=(False, True)),
     ],
 )
 
